@@ -1,5 +1,9 @@
 import SmtpV.Props.C11
+import SmtpV.Props.C11Server
 #print axioms SmtpV.Props.C11.C11_exact_mailbox
 #print axioms SmtpV.Props.C11.C11_special_refused
 #print axioms SmtpV.Props.C11.C11_null_sender
 #print axioms SmtpV.Props.C11.C11_quoted_exact
+#print axioms SmtpV.Props.C11.C11_mail_exact_or_refused
+#print axioms SmtpV.Props.C11.C11_mail_refused_before_backend
+#print axioms SmtpV.Props.C11.C11_rcpt_exact_or_refused
